@@ -52,7 +52,7 @@ ALLOC_ARG = ('xfb', 'xbb', 'mto', 'mfrom', 'pto', 'trunc', 'pushb', 'pushf', 'pu
 class Check(DiffCheck):
     id = 'C14'
     coq_dirs = ['C14']
-    coq_targets = ['C14/C14_Proofs.vo']
+    coq_targets = ['C14/C14_Lib.vo', 'C14/C14_Proofs.vo', 'C14/C14_Seq.vo']
     properties_v = 'C14/C14_Properties.v'
     extract_v = 'C14/C14_Extract.v'
     runner_ml = 'ocaml/C14_run.ml'
